@@ -36,6 +36,7 @@ func VerifC06_LookupKeyInjective() {
 	maxLen := 2
 	if sym.Tier() > 0 {
 		m = sym.Choice("fields", 3) + 1
+		maxLen = 4 // values of 0..4 bytes: lengths on both sides of the one-digit length prefix are not reachable (10+), stated
 	}
 	a := verifTuple("a", m, maxLen)
 	b := verifTuple("b", m, maxLen)
